@@ -26,6 +26,7 @@ class Graph(object):
         self.out = collections.defaultdict(list)   # node -> [(label, dst)]
         self.nodes = set()
         self.nedges = 0
+        self.actions = collections.Counter()   # action name -> number of edges
 
 
 def parse_dot(path, by_call=True):
@@ -46,6 +47,7 @@ def parse_dot(path, by_call=True):
                 g.nodes.add(u)
                 g.nodes.add(v)
                 g.nedges += 1
+                g.actions[lab.split('(', 1)[0]] += 1
                 continue
             m = _NODE.match(line)
             if m:
